@@ -12,703 +12,935 @@ Definition show_fres (r : fres) : string :=
   end.
 Definition check (rs : list rune) : string := digest (show_fres (format_res rs)).
 Definition full (rs : list rune) : string := show_fres (format_res rs).
-Eval vm_compute in ("<<<M1623>>>" ++ check (runes_of_ascii "packet falsey {
-    char[7] Foo @calculatedFrom(""CRC32""),
-    @tag(10)
-    u8 Packet `" ++ [233]%N ++ runes_of_ascii "`,
-    repeat stringy,
-    @lengthOf(float)
-    tag {
-        repeat u8x {
-            int16 charz @lengthOf(trueish),//	t
-            repeat string calculatedFrom,
-            charz @calculatedFrom(""a\""b"") `line1
-            line2`,
-        },
-        u64 MetaDataX @calculatedFrom(""" ++ [128512]%N ++ runes_of_ascii """) `" ++ [233]%N ++ runes_of_ascii "`,
-        rootA {
-            repeat u64 BodyLength `" ++ [233]%N ++ runes_of_ascii "`,
-            pack @calculatedFrom(""{,}"") `" ++ [28040; 24687; 31867; 22411]%N ++ runes_of_ascii "`,
-            repeat x charz,
-        },
-        // a // b
-        char[] packetx,
-    },// `tick` ""quote"" 'q'
-    calculatedFrom,
-    u x_y_z,
-    repeat int i64_,
-    @leftPad(' ')
-    u32 T @calculatedFrom(""{,}""),
-    repeat metadata,
-}
+Eval vm_compute in ("<<<M1921>>>" ++ check (runes_of_ascii "  root	packet u
+	{  match
+	crc
 
-root packet chars {
-    char[65535] pack @lengthOf(As) `tab	here`,
-    char[255] msg_type `// not a comment`,
-    @calculatedFrom(""// no comment"")
-    @tag(0)
-    @tag(10)
-    repeat Header {
-        char[] i64_,
-        repeat T ``,
-        match uint8x as i64_ {
-            00 : _x,
-            65535 : Z9_,
-            ""1"" : u8x,
-            007 : Z9_,
-            255 : matchKey,
-            ""1"" : crc,
-        },
-    },
-    @calculatedFrom(""packet"")
-    match int as x_y_z {
-        0123456789 : Logon,
-        //	t
-        [0123456789, ""it's""] : int,
-        [0, 4294967296, ""a	b"", ""CRC32"", """"] : pack,
-        0 : u,
-    },
-    match string_ as int {
-        0 : repeatCount,
-        [""abc""] : float,
-        007 : msg_type,
-        [""a\""b""] : charz,
-    },
-    i16 MetaDataX `say ""hi""`,
-    repeat u `tab	here`,
-    repeat falsey {
-        repeat i8 lengthOf `a\`,
-        repeatCount @lengthOf(o) `{ , }`,
-    },
-}
+    as  leftPad
+	{ [
+    00	]  :	//
 
-packet rootA {
-    calculatedFrom @calculatedFrom(""x y""),
-    char Pad @calculatedFrom(""a\""b"") `" ++ [233]%N ++ runes_of_ascii "`,
-    @leftPad('\x00')
-    repeat float64 tag,
-    @calculatedFrom(""1"")
-    repeat Foo,
-}// " ++ [27880; 37322]%N)).
-Eval vm_compute in ("<<<M1773>>>" ++ check (runes_of_ascii "packet asx {
-    leftPad @calculatedFrom(""" ++ [233]%N ++ runes_of_ascii "t" ++ [233]%N ++ runes_of_ascii """),
-    @leftPad('0')
-    // trailing space 
-    u8x As `crlf
-    line`,
-    char[3] asx @calculatedFrom(""{,}""),
-    // @lengthOf(
-    // trailing space 
-    repeat u128 {
-        int {
-            packetx @calculatedFrom(""packet""),
-            match T as T {
-                ""a	b"" : o,
-            },
-            zchar[00] lengthOf `{ , }`,
-            /// triple
-            // trailing space 
-            char[] crc @calculatedFrom(""abc""),
-        },
-        Header @calculatedFrom(""" ++ [233]%N ++ runes_of_ascii "t" ++ [233]%N ++ runes_of_ascii """) `two words`,
-        repeat uint8 uint8x,
-        repeat char[0123456789] float `u8 x,`,
-    },
-    packetx x `say ""hi""`,
-    @rightPad()
-    i8i8 @calculatedFrom(""x y""),
-    @leftPad()
-    BodyLength {
-        repeat int32 _x ``,
-        i8 msg_type `doc`,
-    },
-}
-
-// `tick` ""quote"" 'q'
-// packet A { u8 x, }
-packet body {
-}
-
-packet repeatCount {
-    zchar[3] Packet,
-    @lengthOf(Header)
-    i64 Packet `two words`,
-    zchar[65535] calculatedFrom `tab	here`,
-    match x as leftPad {
-        ""// no comment"" : rootA,
-        ""`tick`"" : o,
-    },// " ++ [128512]%N ++ runes_of_ascii " emoji
-    zchar[3] u128 @calculatedFrom(""{,}"") `{ , }`,
-}
-
-//	t
-options {
-    u = char[42]// " ++ [27880; 37322]%N ++ runes_of_ascii "
-    metadata = ""a\\"";
-    Logon = string;
-    Z9_ = u16;
-}")).
-Eval vm_compute in ("<<<M1687>>>" ++ check (runes_of_ascii "  options{
-
-} options{
-
-uint8x
-=
-
-// @lengthOf(
-  // " ++ [27880; 37322]%N ++ runes_of_ascii "
-  	42
-
-    uint8x = 	 /// triple
-    ""abc""  ;//x
-	  _x = 
-'0'
-
-    }  packet u8x{  zchar[1
-
-    ]
-As
-    `crlf
-line`  ,
-	match
-
-    metadata
-as
-
-    float
-	{
-
-    ""packet""
-	: //
-	  trueish
-    ,	},repeat rootA,
-    repeat	metadata repeatCount  // trailing space 
-  	,
-	@rightPad
-
-( 	 // `tick` ""quote"" 'q'
-    	'0'
-
-    )  i64 body 
-`// not a comment` ,@tag( 1  )	string
-    string_
-	`line1
-line2` 
-, 
-uint8
-
-u8x `" ++ [28040; 24687; 31867; 22411]%N ++ runes_of_ascii "` ,
-packetx
-u128
-
-    , u tag
-,
-	repeat Logon	zchar
-`` , } packet
-zchar
-
-    {
-}
-packet
-MetaDataX
-{@lengthOf( Packet ) repeatCount int 
-`doc`	,
-
-@tag(
-
-7
-)packetx
-@calculatedFrom( ""a\""b"" 	 // c
-)
-,match	msg_type	as x {
-""\n""  :
-calculatedFrom
-
-    }, //x
-  @leftPad
-( 	 // packet A { u8 x, }
-    '\x00'
-
-    ) @lengthOf( MetaDataX// c
-  ) 
-// a // b
-	char[  007 ]	a1
-	`tab	here`
-, 
-As  @calculatedFrom(
-""`tick`""	)
-`// not a comment`
-,
-} ")).
-Eval vm_compute in ("<<<M1502>>>" ++ check (runes_of_ascii "options {
-    matchKey = ""x y"";
-    MetaDataX = '0';
-}
-
-packet msg_type {
-    @rightPad(' ')
-    repeat u128 body,
-    match body as pack {
-        [""\" ++ [233]%N ++ runes_of_ascii """, ""1""] : BodyLength,
-        [
-            255, 007, 007, 0123456789, ""a	b"",
-            ""a\\"", ""{,}""
-        ] : options1,
-    },
-    @leftPad()
-    @lengthOf(charz)
-    @tag(42)
-    o {
-        i32 msg_type @lengthOf(A) `doc`,
-        zchar[1] charz,// c
-        i8 packetx `{ , }`,
-        msg_type `crlf
-        line`,
-    },
-    @calculatedFrom(""\" ++ [233]%N ++ runes_of_ascii """)
-    Z9_ @calculatedFrom(""" ++ [128512]%N ++ runes_of_ascii """) `tab	here`,
-    repeat char[] Foo,
-    repeat zchar[0123456789] u128,
-}
-
-packet f32a {
-    f32a @lengthOf(matchKey),
-    @rightPad(' ')
-    @lengthOf(chars)
-    _x Foo ``,
-    match body as body {
-        [4294967296, 3, 0123456789, ""packet"", """ ++ [128512]%N ++ runes_of_ascii """] : T,
-        [""a\\""] : T,
-        ""\n"" : u8x,
-    },
-}//x
-
-root packet lengthOf {
-}")).
-Eval vm_compute in ("<<<M362>>>" ++ check (runes_of_ascii "MetaData len
-{i8 _x
-    //	t
-    `` , zchar[ 00 ] tag , roots
-u
-    // `tick` ""quote"" 'q'
-    ,uint16 repeatCount , msg_type tag , } packet x_y_z
-    {
-metadata { i8i8 chars
-,i64
-chars , }
-, repeat u16 asx
-// a // b
-// a // b
-,
-}	packet u8x  { @lengthOf( BodyLength	)	@leftPad(
-// a // b
-//
-)float
+	o ,
+    42
     /// triple
-    `
-` ,
-@calculatedFrom( ""// no comment"" ) float32 // " ++ [128512]%N ++ runes_of_ascii " emoji
-chars`// not a comment` , uint32
-u128 , @tag( 0 )
-int16	tag , leftPad
-    msg_type , // trailing space 
-pack
-    `tab	here` ,
-@lengthOf(
-repeatCount
-// c
-// c
-)zchar[ 4294967296 ] len, i32 packetx`tab	here` , calculatedFrom ,metadata @calculatedFrom(
-""// no comment"" ) , } options { // trailing space 
-options1 = 42 ; i64_
-    // a // b
-    = char[] falsey=
-// packet A { u8 x, }
-//	t
-42 // a // b
-Packet =
-true
-;}
-")).
-Eval vm_compute in ("<<<M1664>>>" ++ check (runes_of_ascii "// a // b
-packet u128 {
-    repeat chars {
-        i64 u8x `
-        `,// c
-        _x @lengthOf(falsey),
-        Logon `" ++ [28040; 24687; 31867; 22411]%N ++ runes_of_ascii "`,
-        repeat char[] trueish `tab	here`,
-    },
-}
+:
 
-root packet T {
-    match Packet as trueish {
-        ""packet"" : charz,
-        [4294967296, ""1""] : A,
-        7 : x,
-        [7, ""a	b""] : u128,
-        255 : As,
-        3 : Packet,
-    },
-    //	t
     // trailing space 
-    pack `a\`,
-    @calculatedFrom(""" ++ [233]%N ++ runes_of_ascii "t" ++ [233]%N ++ runes_of_ascii """)
-    rootA matchKey,
-    char[65535] leftPad @lengthOf(roots),
-    repeat MetaDataX {
-        u64 a1 @calculatedFrom(""x y"") `doc`,//	t
-        uint8 falsey,
-        match BodyLength as A {
-            [255, ""\" ++ [233]%N ++ runes_of_ascii """, """", ""it's""] : Foo,
-            3 : u128,
-        },
-    },
-}")).
-Eval vm_compute in ("<<<M58>>>" ++ check (runes_of_ascii "packet pack
-// c
-// packet A { u8 x, }
-{u8 a1
-// trailing space 
-/// triple
-`say ""hi""` // packet A { u8 x, }
-, @leftPad (
-'\x00' )  uint8 Logon	`
-` // `tick` ""quote"" 'q'
-,
-char[]lengthOf // " ++ [27880; 37322]%N ++ runes_of_ascii "
-`" ++ [233]%N ++ runes_of_ascii "` ,
-//
-//x
-repeat char[] As,
-    //	t
-    @lengthOf(string_ )  @calculatedFrom(
-""a\\"" )
-    repeat
-    u8x	o	, char string_ @calculatedFrom(
-""a\""b"" )
-`tab	here`
-    , repeat As { char[
-    // packet A { u8 x, }
-    0 ] i64_//	t
-@lengthOf( T)
-`" ++ [233]%N ++ runes_of_ascii "` , char[4294967296	]
-T @calculatedFrom( ""\" ++ [233]%N ++ runes_of_ascii """ )
-, trueish
-, repeat int
-{string Logon @calculatedFrom(	""1"" ) , metadata  ,
-uint32
-Z9_  , // " ++ [27880; 37322]%N ++ runes_of_ascii "
-} , },@tag( 00 ) //	t
-i16  a1 `a\`
-    ,
-    }
-")).
-Eval vm_compute in ("<<<M1431>>>" ++ check (runes_of_ascii "packet f32a {
-    char[] Header `" ++ [233]%N ++ runes_of_ascii "`,
-    @tag(00)
-    zchar[255] int,
-    @lengthOf(trueish)
-    x @calculatedFrom(""" ++ [128512]%N ++ runes_of_ascii """) `say ""hi""`,
-    @leftPad('\x00')
-    @lengthOf(u128)
-    //	t
-    repeat BodyLength,
-    falsey @lengthOf(uint8x),//
-    @lengthOf(rootA)
-    repeat uint8 T `a\`,
-    repeat string lengthOf `it's`,
-    @leftPad('\x00')
-    zchar[42] u `say ""hi""`,// a // b
-    repeat packetx {
-        Pad f32a,// trailing space 
-        i8i8 msg_type `say ""hi""`,
-        i64_ repeatCount,
-        char[] chars,
-    },
-}
+      //x
 
-MetaData _x {
-    x matchKey `" ++ [28040; 24687; 31867; 22411]%N ++ runes_of_ascii "`,
-}")).
-Eval vm_compute in ("<<<M163>>>" ++ check (runes_of_ascii "options { As = // trailing space 
-zchar[ 4294967296] ; } //	t
-packet len // packet A { u8 x, }
-{ @lengthOf(
-_x) match
-    // c
-    lengthOf
-    as
-//
-// `tick` ""quote"" 'q'
-string_// c
-{
-    [ 4294967296 ]: i64_ ""a	b"": o
+crc
+	[
+	""a	b""
+, ""CRC32""
 ,
+
+    ""a\""b""  ,  ""\n""
+,
+
+0,
+255]
+    : // packet A { u8 x, }
+    zchar
+
+    , 
+// " ++ [128512]%N ++ runes_of_ascii " emoji
+  //
+
+}	//	t
+	,
+	string
+    stringy
+
+@lengthOf(matchKey	) , int ,  @tag(  1 )	repeat  zchar[
+    4294967296
+
+] roots
+	,
+	@leftPad ( 
+'\x00')
+x
+
+//x
+    @lengthOf(
+
+crc )  , }	packet  // c
+    	repeatCount {
+
+    zchar[
+
+255	]
+
+    f32a
+	@calculatedFrom(""x y""  )
+    ,
+    @tag(
+	255)	char[] asx 
+@calculatedFrom( 
+""" ++ [28040; 24687]%N ++ runes_of_ascii """ 
+
+// " ++ [27880; 37322]%N ++ runes_of_ascii "
+    ) ,leftPad { 
+
+    /// triple
+    	// a // b
+repeat int u8x  ,
+i64  trueish
+
+    @lengthOf(
+	i8i8	)
+`" ++ [28040; 24687; 31867; 22411]%N ++ runes_of_ascii "` 
+	    // a // b
+, repeat int64//	t
+    	pack ,
 }
-, leftPad
-    @calculatedFrom( ""`tick`""	)
-// trailing space 
-// `tick` ""quote"" 'q'
-,@leftPad( '\x00' ) repeat charz /// triple
+, match
+    float
+	as o
+
+    { //
+	  65535
+    :  Pad ,
+	[
+
+""" ++ [128512]%N ++ runes_of_ascii """ ,
+""" ++ [28040; 24687]%N ++ runes_of_ascii """,
+
+0123456789] 
+	//x
+  // @lengthOf(
+: i8i8 
+, 7:
+asx
+    00 :stringy} 
+,
+@calculatedFrom(
+
+""" ++ [233]%N ++ runes_of_ascii "t" ++ [233]%N ++ runes_of_ascii """
+) f32a
+// packet A { u8 x, }
+	// trailing space 
+
+	u
+    ,
+	repeat
+msg_type
+`" ++ [233]%N ++ runes_of_ascii "` ,
+
+    repeat
+zchar[ 
+42
+]crc
+
+,uint64 
+    // " ++ [27880; 37322]%N ++ runes_of_ascii "
+  lengthOf	,
+
+    repeat As
+    `` ,zchar[ 007
+    ]
+
+    tag  `tab	here` 
+,
+
+}
+root
+packet  charz  {	string
 msg_type
 ,
-repeat i8
-Foo , }packet msg_type {
-//x
-// @lengthOf(
-@leftPad (
-'0'
-)
-u64 repeatCount @calculatedFrom(
-""" ++ [28040; 24687]%N ++ runes_of_ascii """) ,// packet A { u8 x, }
-}
-")).
-Eval vm_compute in ("<<<M1473>>>" ++ check (runes_of_ascii "packet crc
+@calculatedFrom(
+    """"
+)repeat//	t
+	string tag	`tab	here` ,
 
-// a // b
-//x
-	  {
-
-    u128  packetx	, 	 // " ++ [128512]%N ++ runes_of_ascii " emoji
-	match
-    roots as 
-
-    //
-    falsey
-
-    {
-
-    0123456789	// a // b
-    :	Header""packet""// a // b
-	: 	 // a // b
-      Z9_
-3
-
-:A
-	,
-    // trailing space 
-	  // a // b
-  ""a	b""
-: 
-roots 
-10 :
-_x 
+repeat calculatedFrom ,
+    repeat
+    Foo
 ,
-	}  , @tag( 255  // a // b
-	  )  match
+uint64 Foo
+
+    @lengthOf( packetx
+
+    ),
+@rightPad (
+    ) match
+	falsey
+as
 
 calculatedFrom
-
-    as o {255	:
-string_
-""" ++ [28040; 24687]%N ++ runes_of_ascii """ :
-    i64_
-
-,  }
+    { [0 , 10
 ,
 
-    }
-	MetaData 
-T
-	{ float64 u , } packet Pad{ /// triple
-
-}
-")).
-Eval vm_compute in ("<<<M256>>>" ++ check (runes_of_ascii "
-options // " ++ [27880; 37322]%N ++ runes_of_ascii "
-{ T = zchar[ 42
-] options1 = uint8 ;
-lengthOf
-=
-    // a // b
-    char[4294967296
-    ]
-    ; } packet Z9_ { repeat
-MetaDataX
-`crlf
-line`
+    ""a\""b""
+    ] :	metadata , }
     ,
-repeat string x_y_z	,
-    u32 x
-, // `tick` ""quote"" 'q'
-@tag(
-// " ++ [128512]%N ++ runes_of_ascii " emoji
-// " ++ [128512]%N ++ runes_of_ascii " emoji
-00 )repeat i64 Logon ,
-u8x
-f32a, repeat
-    lengthOf``, repeat
-stringy Pad
-    // @lengthOf(
-    `
-`,
-    repeat
-    string_ chars `// not a comment` , }
+    @calculatedFrom(  ""\" ++ [233]%N ++ runes_of_ascii """) i64
 
-")).
-Eval vm_compute in ("<<<M1259>>>" ++ check (runes_of_ascii "// top
-packet // c0
-B // c1a
-  // c1b
-{ // c2
-u8 // c3a
-  // c3b
-a // c4
-, } // c6
-root // c7a
-  // c7b
-packet // c8a
-  // c8b
-P { // c10
-u8
-    // c11
-K , // c13
-u8 // c14a
-  // c14b
-L // c15a
-  // c15b
-@lengthOf( // c16a
-  // c16b
-Body )
-    // c18
-, match // c20
-K as // c22a
-  // c22b
-Body
-    // c23
-{ 1 :
-    // c26
-B // c27
-, }
-    // c29
-,
-    // c30
-}
-    // c31
-")).
-Eval vm_compute in ("<<<M110>>>" ++ check (runes_of_ascii "root // trailing space 
-packet
-leftPad { T
-@lengthOf(A
-) `" ++ [233]%N ++ runes_of_ascii "`,
-    Header
-    @lengthOf( As ) // " ++ [27880; 37322]%N ++ runes_of_ascii "
-,
-string	calculatedFrom `{ , }`
-, @tag( 1) // trailing space 
-u16  x_y_z ,
-@tag( 4294967296
-) x_y_z metadata// " ++ [128512]%N ++ runes_of_ascii " emoji
-,asx { asx `it's`
-    ,} , char[ 65535 ]
-As@lengthOf(
-    Logon ) `a\`
-,@lengthOf(
-Z9_
-    ) string
-BodyLength ,
-}")).
-Eval vm_compute in ("<<<M1665>>>" ++ check (runes_of_ascii "packet A {
-    u8 a,
-}
+    As	`` ,
+    @lengthOf(	rootA
 
-packet B {
-    u16 b,
-}
-
-packet C {
-    u32 c,
-}
-
-root packet M {
-    u16 Kc,
-    u16 Kb,
-    u16 Ka,
-    match Kc as X {
-        9 : A,
-        10 : B,
-    },
-    match Kb as Y {
-        2 : C,
-        1 : A,
-    },
-    match Ka as Z {
-        1 : B,
-    },
-    A,
-    B,
-    C,
-}")).
-Eval vm_compute in ("<<<M1570>>>" ++ check (runes_of_ascii "packet float {
-    @rightPad()
-    // c5a
-    // c5b
-    rootA @lengthOf(trueish),
-    // c10
-    stringy @lengthOf(matchKey),// c15a
-    // c15b
-    char[4294967296] pack @lengthOf(uint8x),
-}// c24
-
-root packet trueish {
-    // c28
-    repeat uint64 u128 `line1
-    line2`,
-}")).
-Eval vm_compute in ("<<<M1783>>>" ++ check (runes_of_ascii "root packet chars {
-    string T `say ""hi""`,
-    @tag(1)
-    body {
-        repeat o {
-            f64 Packet @calculatedFrom(""a\\""),
-        },
-    },
-}
-
-packet pack {
-    @tag(4294967296)
-    repeat char[] Logon,
-    repeat BodyLength len,
-}")).
-Eval vm_compute in ("<<<M350>>>" ++ check (runes_of_ascii "MetaData Pad
-{ i64 Packet `{ , }`
-    , // `tick` ""quote"" 'q'
-repeatCount  trueish // packet A { u8 x, }
-`say ""hi""`	, f32 pack`// not a comment` ,// `tick` ""quote"" 'q'
+    )
 u32
-calculatedFrom ,char //	t
-zchar
-,}
+
+Logon  // c
+    @lengthOf(
+a1
+)	, @calculatedFrom(""""  )
+
+@leftPad 
+(	' ' )	uint16
+
+    i8i8 
+@calculatedFrom(""// no comment""
+), 
+}root
+	packet // trailing space 
+		uint8x 
+{repeat f32
+chars`tab	here`
+
+    , }  MetaData
+calculatedFrom { 
+      //
+// `tick` ""quote"" 'q'
+    metadata
+crc	, 
+}
 ")).
-Eval vm_compute in ("<<<M9>>>" ++ check (runes_of_ascii "
-options {body = """ ++ [28040; 24687]%N ++ runes_of_ascii """ }	packet matchKey
-{string_
-// packet A { u8 x, }
+Eval vm_compute in ("<<<M385>>>" ++ check (runes_of_ascii "options {
+    StringPrefixLenType = u16;
+    ArrayPrefixLenType = u16;
+}
+
+packet SampleBinary {
+    uint16 MsgType `" ++ [28040; 24687; 31867; 22411]%N ++ runes_of_ascii "`,
+    u16 BodyLenght @lengthOf(Body) `" ++ [28040; 24687; 20307; 38271; 24230]%N ++ runes_of_ascii "`,
+    match MsgType as Body {
+        1 : Logon,
+        2 : Logout,
+        3 : Heartbeat,
+        4 : RiskControlRequest,
+        5 : RiskControlResponse,
+    },
+    @calculatedFrom(""CRC32"")
+    u32 Ckecksum `" ++ [26657; 39564; 21644]%N ++ runes_of_ascii "`,
+}
+
+packet Logon {
+    @leftPad('0')
+    char[10] UserName `" ++ [29992; 25143; 21517]%N ++ runes_of_ascii "`,
+    string Password `" ++ [23494; 30721]%N ++ runes_of_ascii "`,
+    uint64 ClientId `" ++ [23458; 25143; 31471]%N ++ runes_of_ascii "ID`,
+    u16 HeartbeatInterval `" ++ [24515; 36339; 38388; 38548]%N ++ runes_of_ascii "`,
+}
+
+packet Logout {
+    @rightPad('0')
+    char[10] UserName `" ++ [29992; 25143; 21517]%N ++ runes_of_ascii "`,
+    uint64 ClientId `" ++ [23458; 25143; 31471]%N ++ runes_of_ascii "ID`,
+}
+
+packet Heartbeat {
+}
+
+packet RiskControlRequest {
+    string UniqueOrderId `" ++ [21807; 19968; 35746; 21333; 21495]%N ++ runes_of_ascii "`,
+    char[16] ClOrdID `" ++ [23458; 25143; 35746; 21333; 21495]%N ++ runes_of_ascii "`,
+    char[3] MarketID `" ++ [24066; 22330]%N ++ runes_of_ascii "id`,
+    char[12] SecurityID `" ++ [35777; 21048; 20195; 30721]%N ++ runes_of_ascii "`,
+    char Side `" ++ [20080; 21334; 26041; 21521]%N ++ runes_of_ascii "`,
+    char OrderType `" ++ [35746; 21333; 31867; 22411]%N ++ runes_of_ascii "`,
+    u64 Price `" ++ [20215; 26684]%N ++ runes_of_ascii "`,
+    u32 Qty `" ++ [25968; 37327]%N ++ runes_of_ascii "`,
+    repeat string ExtraInfo `" ++ [38468; 21152; 20449; 24687]%N ++ runes_of_ascii "`,
+    repeat SubOrder {
+        char[16] ClOrdID `" ++ [23376; 35746; 21333; 21495]%N ++ runes_of_ascii "`,
+        u64 Price `" ++ [23376; 35746; 21333; 20215; 26684]%N ++ runes_of_ascii "`,
+        u32 Qty `" ++ [23376; 35746; 21333; 25968; 37327]%N ++ runes_of_ascii "`,
+    },
+}
+
+packet RiskControlResponse {
+    string UniqueOrderId `" ++ [21807; 19968; 35746; 21333; 21495]%N ++ runes_of_ascii "`,
+    i32 Status `" ++ [29366; 24577]%N ++ runes_of_ascii "`,
+    string Msg `" ++ [32467; 26524; 20449; 24687]%N ++ runes_of_ascii "`,
+    repeat Detail,
+}
+
+packet Detail {
+    string RuleName `" ++ [35268; 21017; 21517; 31216]%N ++ runes_of_ascii "`,
+    u16 Code `" ++ [21407; 22240; 20195; 30721]%N ++ runes_of_ascii "`,
+}")).
+Eval vm_compute in ("<<<M1398>>>" ++ check (runes_of_ascii "packet T {
+    match repeatCount as Packet {
+        ""packet"" : msg_type,
+        00 : Foo,
+        """ ++ [128512]%N ++ runes_of_ascii """ : trueish,
+        """" : repeatCount,
+        [
+            4294967296,
+            65535
+        ] : u,
+    },
+    @calculatedFrom(""a\\"")
+    float32 len @lengthOf(string_),
+    stringy Pad,
+    roots {
+        repeat x_y_z `// not a comment`,
+        T `" ++ [233]%N ++ runes_of_ascii "`,
+    },
+    @tag(007)
+    _x {
+        // " ++ [128512]%N ++ runes_of_ascii " emoji
+        char[] body @calculatedFrom(""" ++ [233]%N ++ runes_of_ascii "t" ++ [233]%N ++ runes_of_ascii """),
+        repeat Pad ``,
+    },
+    match u as packetx {
+        // `tick` ""quote"" 'q'
+        [007, ""// no comment""] : T,
+        [""\" ++ [233]%N ++ runes_of_ascii """] : u8x,
+    },
+    @rightPad()
+    int8 _x,
+    @lengthOf(A)
+    match crc as metadata {
+        [
+            00, 3, 1,
+            10, ""a\""b""
+        ] : Packet,
+        //	t
+        [4294967296, ""abc"", """"] : a1,
+        """ ++ [28040; 24687]%N ++ runes_of_ascii """ : repeatCount,
+    },
+}
+
+options {
+}
+
+MetaData Header {
+    trueish Pad,
+}
+
+MetaData Z9_ {
+    char[] metadata,
+    Header A `doc`,
+    uint32 packetx,
+    int16 uint8x,
+    Header leftPad,
+}")).
+Eval vm_compute in ("<<<M1461>>>" ++ check (runes_of_ascii "  // packet A { u8 x, }
+	root packet	leftPad
+{ 
+@calculatedFrom(
+
+//x
+  	""`tick`""
+	)
+@rightPad
+
+    ( ) 
+// " ++ [128512]%N ++ runes_of_ascii " emoji
+
+  string_
+
+// `tick` ""quote"" 'q'
 // a // b
-@lengthOf( f32a) ,	int32 int @lengthOf(u128 )	, tag x_y_z ,}packet BodyLength /// triple
-{ }")).
-Eval vm_compute in ("<<<M1580>>>" ++ check (runes_of_ascii "
+	@lengthOf( tag
+)`a\`
 
-  MetaData
+,  i64 T`" ++ [233]%N ++ runes_of_ascii "` , 	 //	t
+	  }
 
-    leftPad  {
+packet
+    Pad// @lengthOf(
+		{  @lengthOf( 
+float
+	) 
+char[]
+	x
+    @calculatedFrom(
 
-chars 
-MetaDataX ,	}
-        // c
-    packet
+    ""a\""b"" )
+	,// trailing space 
 
-    repeatCount {
-	char[
-255]
+@tag(	0 // " ++ [128512]%N ++ runes_of_ascii " emoji
+	) // " ++ [27880; 37322]%N ++ runes_of_ascii "
+repeatCount // packet A { u8 x, }
+    	,repeat
+	rootA 
+{
+_x	, zchar[
+3 ] 
+roots
+/// triple
+  	`crlf
+line` , }
 
-uint8x
-`" ++ [233]%N ++ runes_of_ascii "` ,} MetaData pack 
-{ As
+    , 
+    /// triple
+	// a // b
 
-    Foo, }
+match 
+metadata
+as BodyLength	{
+    [
+// c
+  10
+
+,
+	10
+	, ""a\""b"",
+    """"
+    ,""\n""
+	, ""a\\""
+
+, 
+4294967296	]  :u, } , repeat
+    i64_ Packet
+`" ++ [28040; 24687; 31867; 22411]%N ++ runes_of_ascii "`	,  @tag( 	 // packet A { u8 x, }
+  	65535) char[] 
+float
+
+`it's`,	char[
+7
+]x@calculatedFrom(	""{,}"" )
+,}MetaData
+
+leftPad // a // b
+    {body
+
+    rootA
+`crlf
+line`,
+int64
+
+    msg_type `doc`,	// @lengthOf(
+  }
+
 ")).
+Eval vm_compute in ("<<<M1321>>>" ++ check (runes_of_ascii "// top
+packet // c0
+P1
+    // c1
+{ // c2
+u8
+    // c3
+a // c4a
+  // c4b
+,
+    // c5
+} // c6
+packet
+    // c7
+P2 // c8
+{ // c9a
+  // c9b
+P1 // c10
+, } // c12a
+  // c12b
+packet // c13a
+  // c13b
+P3
+    // c14
+{
+    // c15
+P2
+    // c16
+, // c17
+P1 , // c19
+} // c20a
+  // c20b
+packet // c21
+P4 // c22
+{ // c23
+repeat // c24a
+  // c24b
+P3
+    // c25
+, P2 , } root // c30a
+  // c30b
+packet // c31
+P5 { // c33
+P4
+    // c34
+,
+    // c35
+P3 // c36a
+  // c36b
+, P1
+    // c38
+,
+    // c39
+u8 K // c41
+, // c42
+match // c43
+K // c44a
+  // c44b
+as
+    // c45
+Body // c46a
+  // c46b
+{ // c47a
+  // c47b
+4 : // c49a
+  // c49b
+P4 // c50
+, // c51
+3 :
+    // c53
+P3 // c54a
+  // c54b
+, // c55a
+  // c55b
+2 // c56a
+  // c56b
+:
+    // c57
+P2 ,
+    // c59
+1 : // c61a
+  // c61b
+P1 // c62
+, // c63a
+  // c63b
+}
+    // c64
+, }
+    // c66
+")).
+Eval vm_compute in ("<<<M312>>>" ++ check (runes_of_ascii "packet // packet A { u8 x, }
+tag
+    { @calculatedFrom(""x y"" ) lengthOf{ options1
+    `
+`,} , @tag( 7 )
+int {
+//x
+// " ++ [27880; 37322]%N ++ runes_of_ascii "
+char[ 007  ] // `tick` ""quote"" 'q'
+calculatedFrom @lengthOf(
+metadata
+)  , tag @lengthOf( falsey
+) ,	f32
+    // " ++ [128512]%N ++ runes_of_ascii " emoji
+    calculatedFrom
+// `tick` ""quote"" 'q'
+//
+`{ , }` , i8i8
+    {string
+    i64_ @lengthOf( asx )	`it's` , u @calculatedFrom(  ""\n"" ) ,
+    } ,	}
+    ,
+    @calculatedFrom(""abc"" //
+)  @leftPad ( ' '
+    )  uint64 calculatedFrom
+,// " ++ [27880; 37322]%N ++ runes_of_ascii "
+} packet o { Header ,
+    @lengthOf(	i8i8
+) float32
+    Pad // c
+,char[ 42 ]
+leftPad
+    @calculatedFrom(	"""" // " ++ [128512]%N ++ runes_of_ascii " emoji
+)
+    , @tag( 255 )
+body
+    u , } packet lengthOf{
+// packet A { u8 x, }
+// c
+@tag(
+    255 //x
+) char[ 0123456789 ] o
+`
+` , }
+
+")).
+Eval vm_compute in ("<<<M1776>>>" ++ check (runes_of_ascii "options {
+}
+
+packet i8i8 {
+    @tag(3)
+    x @calculatedFrom(""it's""),
+    @lengthOf(f32a)
+    match rootA as uint8x {
+        0 : string_,
+        42 : Packet,
+    },
+    @leftPad('\x00')
+    i64_ packetx `u8 x,`,
+    @calculatedFrom(""x y"")
+    matchKey {
+        len,
+    },
+    @lengthOf(matchKey)
+    @calculatedFrom(""abc"")
+    @lengthOf(x_y_z)
+    /// triple
+    repeat metadata `line1
+    line2`,
+    lengthOf repeatCount,/// triple
+    int32 roots @calculatedFrom(""`tick`"") `" ++ [233]%N ++ runes_of_ascii "`,
+    zchar[1] Packet @calculatedFrom(""// no comment""),
+}
+
+packet options1 {
+    @lengthOf(uint8x)
+    A @calculatedFrom(""it's"") `doc`,
+}
+
+root packet crc {
+    char[65535] chars,
+}")).
+Eval vm_compute in ("<<<M1720>>>" ++ check (runes_of_ascii "root packet u8x {
+    char i64_,
+    repeat char[1] Z9_,
+    @tag(42)
+    repeat Logon MetaDataX,
+    @leftPad()
+    Foo @lengthOf(As),
+    match u128 as calculatedFrom {
+        // " ++ [128512]%N ++ runes_of_ascii " emoji
+        4294967296 : BodyLength,
+        3 : A,
+        //
+        [4294967296, ""packet""] : o,
+        65535 : roots,
+    },
+    repeat Pad {
+        uint64 x @calculatedFrom(""" ++ [128512]%N ++ runes_of_ascii """),
+        a1 @lengthOf(As) `line1
+        line2`,
+        repeat string_ {
+            repeat uint32 _x,
+            f32 MetaDataX `it's`,
+            u64 As @lengthOf(crc),
+        },
+        roots,
+    },
+    zchar[00] u128,
+}")).
+Eval vm_compute in ("<<<M1635>>>" ++ check (runes_of_ascii "packet u8x {
+}
+
+root packet matchKey {
+    repeat zchar[0123456789] int,
+    char[4294967296] asx `{ , }`,
+    repeat i8i8,
+    repeat Packet {
+        repeat leftPad {
+            f32 u128 @lengthOf(As),
+            body `two words`,// packet A { u8 x, }
+            rootA Pad,
+        },
+        char[00] msg_type `tab	here`,
+        repeat i64_ `doc`,
+        zchar x_y_z,
+    },
+}
+
+root packet int {
+    repeat f32a {
+        repeat f32a asx `u8 x,`,
+    },
+    @lengthOf(msg_type)
+    body,
+    // c
+    //
+    Z9_ zchar `a\`,
+}//x")).
+Eval vm_compute in ("<<<M1237>>>" ++ check (runes_of_ascii "// top
+options // c0
+{ // c1
+zchar // c2
+= // c3
+true // c4
+; // c5
+Pad // c6
+= // c7
+char[ // c8
+00 // c9
+] // c10
+a1 // c11
+= // c12
+uint32 // c13
+BodyLength // c14
+= // c15
+true // c16
+; // c17
+} // c18
+root // c19
+packet // c20
+T // c21
+{ // c22
+@lengthOf( // c23
+repeatCount // c24
+) // c25
+@tag( // c26
+1 // c27
+) // c28
+@calculatedFrom( // c29
+""a	b"" // c30
+) // c31
+string // c32
+stringy // c33
+@calculatedFrom( // c34
+""\n"" // c35
+) // c36
+`u8 x,` // c37
+, // c38
+} // c39
+")).
+Eval vm_compute in ("<<<M1192>>>" ++ check (runes_of_ascii "// top
+MetaData
+    // c0
+uint8x
+    // c1
+{
+    // c2
+char[]
+    // c3
+f32a
+    // c4
+`// not a comment`
+    // c5
+,
+    // c6
+float32
+    // c7
+roots
+    // c8
+,
+    // c9
+char[
+    // c10
+7
+    // c11
+]
+    // c12
+u8x
+    // c13
+,
+    // c14
+zchar[
+    // c15
+10
+    // c16
+]
+    // c17
+f32a
+    // c18
+,
+    // c19
+u64
+    // c20
+pack
+    // c21
+,
+    // c22
+u16
+    // c23
+pack
+    // c24
+,
+    // c25
+}
+    // c26
+")).
+Eval vm_compute in ("<<<M1139>>>" ++ check (runes_of_ascii "// top
+MetaData
+    // c0
+leftPad
+    // c1
+{
+    // c2
+chars
+    // c3
+MetaDataX
+    // c4
+,
+    // c5
+}
+    // c6
+packet
+    // c7
+repeatCount
+    // c8
+{
+    // c9
+char[
+    // c10
+255
+    // c11
+]
+    // c12
+uint8x
+    // c13
+`" ++ [233]%N ++ runes_of_ascii "`
+    // c14
+,
+    // c15
+}
+    // c16
+MetaData
+    // c17
+pack
+    // c18
+{
+    // c19
+As
+    // c20
+Foo
+    // c21
+,
+    // c22
+}
+    // c23
+")).
+Eval vm_compute in ("<<<M77>>>" ++ check (runes_of_ascii "
+packet	float { char[ 42] int`say ""hi""` , @tag( 255// packet A { u8 x, }
+) match// a // b
+stringy  as
+    x { [ 00 ,42
+]: i64_ 42 : matchKey , [ ""1"" , 1
+, 42
+    ,
+""" ++ [28040; 24687]%N ++ runes_of_ascii """ , ""abc"" ,
+// a // b
+//x
+1 // trailing space 
+]
+: //
+roots
+,
+    65535
+: trueish ,	} ,@calculatedFrom( ""{,}"" )body @calculatedFrom(""" ++ [28040; 24687]%N ++ runes_of_ascii """ ) , zchar[
+    007 ] lengthOf, }
+")).
+Eval vm_compute in ("<<<M1454>>>" ++ check (runes_of_ascii "options {
+    LittleEndian = true;
+}
+
+packet Logon {
+    u8 x,
+}
+
+packet Logout {
+    u16 reason,
+}
+
+root packet Frame {
+    i8 Kind,
+    i8 Kind2,
+    match Kind as Body {
+        1 : Logon,
+        [2, 3, 4] : Logout,
+        100 : Logon,
+    },
+    match Kind2 as Trailer {
+        0 : Logout,
+    },
+}")).
+Eval vm_compute in ("<<<M287>>>" ++ check (runes_of_ascii "root // trailing space 
+packet int {
+    f32a @calculatedFrom(""packet"" )
+    `
+`
+    , } options
+{
+    rootA
+    // @lengthOf(
+    =
+""\" ++ [233]%N ++ runes_of_ascii """; }
+    packet
+i8i8 {
+    // trailing space 
+    uint8
+    uint8x
+    @lengthOf( string_ ) //	t
+, i32 tag //	t
+@lengthOf(
+Logon )  , }")).
+Eval vm_compute in ("<<<M1594>>>" ++ check (runes_of_ascii "root packet i8i8 {
+    @tag(4294967296)
+    // packet A { u8 x, }
+    Header calculatedFrom `
+    `,
+    @tag(4294967296)
+    @rightPad(' ')
+    @lengthOf(float)
+    options1 zchar `" ++ [233]%N ++ runes_of_ascii "`,
+}
+
+root packet x {
+    repeat zchar[10] x `u8 x,`,
+}")).
+Eval vm_compute in ("<<<M1303>>>" ++ check (runes_of_ascii "// top
+packet
+    // c0
+order_item // c1
+{ u8 // c3
+a // c4a
+  // c4b
+, // c5
+} root // c7
+packet
+    // c8
+new_order
+    // c9
+{ // c10
+order_item
+    // c11
+,
+    // c12
+u8 // c13a
+  // c13b
+x ,
+    // c15
+} ")).
+Eval vm_compute in ("<<<M1295>>>" ++ check (runes_of_ascii "packet
+    A{ 
+u8 a,
+}packet
+B
+
+{u16
+	b
+
+    , } root
+packet 
+P
+
+    {  u8
+    K1
+, u8
+
+K2 
+,match K1
+	as	M1
+{
+1
+    :
+
+A,
+
+    } ,	match
+
+K2
+as M2  {
+1:B ,
+    }
+    ,}
+")).
+Eval vm_compute in ("<<<M1488>>>" ++ check (runes_of_ascii "//	t
+options {
+    chars = true
+    As = char[];/// triple
+    x_y_z = 7;// " ++ [27880; 37322]%N ++ runes_of_ascii "
+    i8i8 = true
+    packetx = ' '
+}
+
+root packet x_y_z {
+    repeat char[42] Pad,
+}")).
 Eval vm_compute in ("<<<M438>>>" ++ check (runes_of_ascii "packet uint8x
 { match pack
     as msg_type	{
@@ -720,18 +952,25 @@ a1
     { } options {packetx
     = '\x00'	; u128= ""a	b""  ; }
 ")).
-Eval vm_compute in ("<<<M436>>>" ++ check (runes_of_ascii "packet uint8x
+Eval vm_compute in ("<<<M456>>>" ++ check (runes_of_ascii "packet uint8x
 { match pack
     as msg_type	{
-    0123456789 : :	float
+    0123456789 :	float
 }
 ,
-} packet //	t
+} } packet //	t
 a1
     { } options {packetx
     = '\x00'	; u128= ""a	b""  ; }
 ")).
-Eval vm_compute in ("<<<M549>>>" ++ check (runes_of_ascii "pa\cket uint8x
+Eval vm_compute in ("<<<M275>>>" ++ check (runes_of_ascii "MetaData
+stringy { zchar[10 ] crc,  }
+    packet u128
+{ repeat uint16  BodyLength `// not a comment`, @lengthOf( falsey ) _x ,
+char[ 42 ]  i8i8	, }
+
+")).
+Eval vm_compute in ("<<<M532>>>" ++ check (runes_of_ascii "packet uint8x
 { match pack
     as msg_type	{
     0123456789 :	float
@@ -740,235 +979,312 @@ Eval vm_compute in ("<<<M549>>>" ++ check (runes_of_ascii "pa\cket uint8x
 } packet //	t
 a1
     { } options {packetx
-    = '\x00'	; u128= ""a	b""  ; }
+    = '\x00'	; u128= ""a	b""  ; )
 ")).
-Eval vm_compute in ("<<<M512>>>" ++ check (runes_of_ascii "packet uint8x
-{ match pack
-    as msg_type	{
-    0123456789 :	float
-}
-,
-} packet //	t
-a1
-    { } options {packetx
-    = '\x00'	; =u128 ""a	b""  ; }
+Eval vm_compute in ("<<<M1464>>>" ++ check (runes_of_ascii "
+options {  }MetaData
+
+    u8x
+
+    {
+uint8x
+body `crlf
+line`
+	//	t
+    , calculatedFrom body ,  }	options
+	{  }root
+	packet
+options1
+{ }
 ")).
-Eval vm_compute in ("<<<M503>>>" ++ check (runes_of_ascii "packet uint8x
-{ match pack
-    as msg_type	{
-    0123456789 :	float
-}
-,
-} packet //	t
-a1
-    { } options {packetx
-    = char	; u128= ""a	b""  ; }
-")).
-Eval vm_compute in ("<<<M678>>>" ++ check (runes_of_ascii "// @lengthOf(
+Eval vm_compute in ("<<<M705>>>" ++ check (runes_of_ascii "// @lengthOf(
 packet i8i8 { u128 o , }
 options { MetaDataX = true;
     BodyLength =""packet"" x_y_z= 007
 crc //x
-= ""abc"" ;
-    < msg_type =
+= = ""abc"" ;
+    msg_type =
 i16 }")).
-Eval vm_compute in ("<<<M679>>>" ++ check (runes_of_ascii "// @lengthOf(
-packet { i8i8 u128 o , }
+Eval vm_compute in ("<<<M720>>>" ++ check (runes_of_ascii "// @lengthOf(
+packet i8i8 { u128 o , }
 options { MetaDataX = true;
-    BodyLength =""packet"" x_y_z= 007
+    BodyLength =""packet"" =x_y_z 007
 crc //x
 = ""abc"" ;
     msg_type =
 i16 }")).
-Eval vm_compute in ("<<<M1802>>>" ++ check (runes_of_ascii "
+Eval vm_compute in ("<<<M1865>>>" ++ check (runes_of_ascii "
 packet
+	A
 
-stringy { 
-}MetaData  u8x{
+{
+match k
+	as	n  {
+    [
+""a""  ,
 
-zchar[
-65535
-    // a // b
-] 
-Pad ,
-stringy
+""bb""
 
-string_`u8 x,`
-,u8 lengthOf`
-` 
+    ,
+    007	,""d""	,
+
+    ""e"", 66
+
+]
+	:
+
+    B
+
 ,
-char[ 255]  pack ,  }
+
+    2
+:
+	C
+
+    }
+,
+}
 
 ")).
-Eval vm_compute in ("<<<M649>>>" ++ check (runes_of_ascii "// @lengthOf(
-packet i8i8 { u128 o , }
-options {  = true;
-    BodyLength =""packet"" x_y_z= 007
-crc //x
-= ""abc"" ;
-    msg_type =
-i16 }")).
-Eval vm_compute in ("<<<M1690>>>" ++ check (runes_of_ascii "packet A {
+Eval vm_compute in ("<<<M1803>>>" ++ check (runes_of_ascii "packet A {
     match k as n {
         [
-            1, 22, 007, 4, 5,
-            66, 7
+            1, 22, 4, 5, 7,
+            8, ""c c"", ""f""
         ] : B,
         2 : C,
     },
 }")).
-Eval vm_compute in ("<<<M970>>>" ++ check (runes_of_ascii "packet A {
-    match k as n {
-        ""x\
-y"" : B,
-        [""x\
-y"", 1] : C,
-        [1,2,3,4,5,""x\
-y""] : D,
-    },
-}")).
-Eval vm_compute in ("<<<M1173>>>" ++ check (runes_of_ascii "MetaData leftPad { chars MetaDataX , } packet repeatCount { char[ 255 ] uint8x `" ++ [233]%N ++ runes_of_ascii "` , // c
-} MetaData pack { As Foo , }")).
-Eval vm_compute in ("<<<M300>>>" ++ check (runes_of_ascii "packet
-Logon  { repeat u {zchar { zchar[ 007
-] a1
-`` ,  x_y_z@calculatedFrom(
-//
-// " ++ [128512]%N ++ runes_of_ascii " emoji
-""{,}""
-    ), }, } ,}
-")).
-Eval vm_compute in ("<<<M949>>>" ++ check (runes_of_ascii "packet A {
-    u16 len @lengthOf(body) `x
-`,
-    u32 crc @calculatedFrom(""CRC32"") `x
-`,
-    string body,
-}")).
-Eval vm_compute in ("<<<M913>>>" ++ check (runes_of_ascii "packet A {
-  match k as n {
-    [1, 22, ""c c"", 4, 5, ""f"", 7, 8, ""i"", 10, 11, ""l""] : B
-    2 : C
-  },
-}")).
-Eval vm_compute in ("<<<M932>>>" ++ check (runes_of_ascii "packet A {
-    Inner {
-        u8 x `
-`,
-        Deep {
-            u8 y `
-`,
-        },
-    },
-}")).
-Eval vm_compute in ("<<<M615>>>" ++ check (runes_of_ascii "
-packet
-    asx {match u128 as lengthOf
-{
-//	t
-// `tick` ""quote"" 'q'
-255 : x ,
-    match ,	}")).
-Eval vm_compute in ("<<<M870>>>" ++ check (runes_of_ascii "packet A {
-  match k as n {
-    [1, ""bb"", 007, ""d"", 5, ""f"", 7, ""h"", 9] : B
-    2 : C
-  },
-}")).
-Eval vm_compute in ("<<<M619>>>" ++ check (runes_of_ascii "
-packet
-    asx {match u128 as lengthOf
-{
-//	t
-// `tick` ""quote"" 'q'
-255 : x ,
-    } }	,")).
-Eval vm_compute in ("<<<M557>>>" ++ check (runes_of_ascii "
-packet
-     {match u128 as lengthOf
-{
-//	t
-// `tick` ""quote"" 'q'
-255 : x ,
-    } ,	}")).
-Eval vm_compute in ("<<<M553>>>" ++ check (runes_of_ascii "
-
-    asx {match u128 as lengthOf
-{
-//	t
-// `tick` ""quote"" 'q'
-255 : x ,
-    } ,	}")).
-Eval vm_compute in ("<<<M839>>>" ++ check (runes_of_ascii "packet A {
-  match k as n {
-    [1, 22, 007, 4, 5, 66, 7] : B,
-    2 : C
-  },
-}")).
-Eval vm_compute in ("<<<M1774>>>" ++ check (runes_of_ascii "packet A {
-    match k as n {
-        [1, ""bb""] : B,
-        2 : C,
-    },
-}")).
-Eval vm_compute in ("<<<M1831>>>" ++ check (runes_of_ascii "MetaData x_y_z {
-    i8i8 u8x,
-    string uint8x `crlf
-        line`,
-}")).
-Eval vm_compute in ("<<<M768>>>" ++ check (runes_of_ascii "char = char[] options char[] ] uint64 metadata match 1 zchar[ int16")).
-Eval vm_compute in ("<<<M1452>>>" ++ check (runes_of_ascii "
-
-  // top
-packet  // c0
-
-x 	 // c1
-    { 	 // c2
-  } 	 // c3
-")).
-Eval vm_compute in ("<<<M751>>>" ++ check (runes_of_ascii "options @calculatedFrom( repeat } [ @tag( uint32 char[] ] :")).
-Eval vm_compute in ("<<<M627>>>" ++ check (runes_of_ascii "
-packet
-    asx {match u128 as lengthOf
-{
-//	t
-// `t")).
-Eval vm_compute in ("<<<M1215>>>" ++ check (runes_of_ascii "packet body { i32 f32a `{ , }` , } options // c
-{ }")).
-Eval vm_compute in ("<<<M756>>>" ++ check (runes_of_ascii "zchar ( : f64 ) , repeat f32 u16 float64 , ; :")).
-Eval vm_compute in ("<<<M933>>>" ++ check (runes_of_ascii "MetaData M {
-    u8 x `
-`,
-    T t `
-`,
-}")).
-Eval vm_compute in ("<<<M50>>>" ++ check (runes_of_ascii "options {
-    Packet =  char[]  }
-")).
-Eval vm_compute in ("<<<M766>>>" ++ check (runes_of_ascii "Dr1UAAa-*U|u3S?xE-Vr&9^'H>gI<.E")).
-Eval vm_compute in ("<<<M175>>>" ++ check (runes_of_ascii "
-packet calculatedFrom { } 	 ")).
-Eval vm_compute in ("<<<M1475>>>" ++ check (runes_of_ascii "// c" ++ [8202]%N ++ runes_of_ascii "
-packet A
-	{
-    }
-")).
-Eval vm_compute in ("<<<M238>>>" ++ check (runes_of_ascii "root packet chars
-{}
-")).
-Eval vm_compute in ("<<<M1062>>>" ++ check (runes_of_ascii "// c x
-packet A {
-}")).
-Eval vm_compute in ("<<<M1022>>>" ++ check (runes_of_ascii "// c" ++ [8239]%N ++ runes_of_ascii "
-packet A {
-}")).
-Eval vm_compute in ("<<<M999>>>" ++ check (runes_of_ascii "packet A {
-}// c" ++ [8192]%N)).
-Eval vm_compute in ("<<<M1071>>>" ++ check (runes_of_ascii "packet A {
+Eval vm_compute in ("<<<M1466>>>" ++ check (runes_of_ascii "MetaData leftPad {
+    chars MetaDataX,
 }
 
+packet repeatCount {
+    char[255] uint8x `" ++ [233]%N ++ runes_of_ascii "`,
+}
+
+MetaData pack {
+    As Foo,
+}")).
+Eval vm_compute in ("<<<M1157>>>" ++ check (runes_of_ascii "MetaData leftPad { chars MetaDataX , } packet // c
+repeatCount { char[ 255 ] uint8x `" ++ [233]%N ++ runes_of_ascii "` , } MetaData pack { As Foo , }")).
+Eval vm_compute in ("<<<M1379>>>" ++ check (runes_of_ascii "  packet
+	A	{
+match k
+    as  n	{[ 1
+,
+    22 
+,
+
+""c c"" ,
+4,  5
+,
+
+""f"" ,
+    7 
+,
+
+8 ,""i""]:
+B  2
+
+    : C
+}
+
+,
+
+}
+")).
+Eval vm_compute in ("<<<M1567>>>" ++ check (runes_of_ascii "packet Header {
+    repeat char[0123456789] BodyLength `" ++ [28040; 24687; 31867; 22411]%N ++ runes_of_ascii "`,
+    zchar[3] chars,// trailing space 
+    A,
+}//")).
+Eval vm_compute in ("<<<M49>>>" ++ check (runes_of_ascii "options  { f32a = true;  metadata =""CRC32"" ;
+body // " ++ [27880; 37322]%N ++ runes_of_ascii "
+=
+char ; A =
+float64	;
+} MetaData
+    rootA { }")).
+Eval vm_compute in ("<<<M1573>>>" ++ check (runes_of_ascii "
+packet
+A {
+
+    Inner  {
+
+match  k
+as
+
+n
+{
+[ 1
+
+    ,  22
+	, 
+007 , 4
+    ]
+: B,
+}
+	,
+}
+,}
+")).
+Eval vm_compute in ("<<<M554>>>" ++ check (runes_of_ascii "
+packet packet
+    asx {match u128 as lengthOf
+{
+//	t
+// `tick` ""quote"" 'q'
+255 : x ,
+    } ,	}")).
+Eval vm_compute in ("<<<M1727>>>" ++ check (runes_of_ascii "
+
+  packet
+A
+    {
+	match
+
+k as 
+n
+	{
+[
+    ""a"" , 22,  ""c c"" 
+]
+
+:
+B
+
+    2 :	C
+	}
+,
+	}
 
 ")).
-Eval vm_compute in ("<<<M975>>>" ++ check (runes_of_ascii "// c ")).
-Eval vm_compute in ("<<<M19>>>" ++ check (runes_of_ascii "
+Eval vm_compute in ("<<<M559>>>" ++ check (runes_of_ascii "
+packet
+    { asx match u128 as lengthOf
+{
+//	t
+// `tick` ""quote"" 'q'
+255 : x ,
+    } ,	}")).
+Eval vm_compute in ("<<<M1533>>>" ++ check (runes_of_ascii "packet A
+
+    {
+match  k
+as n	{[ 1
+    ,  ""bb""
+    , 007]
+    :
+
+B,
+2
+: C
+	}
+    ,	} ")).
+Eval vm_compute in ("<<<M846>>>" ++ check (runes_of_ascii "packet A {
+  match k as n {
+    [""a"", 22, ""c c"", 4, ""e"", 66, ""g""] : B
+    2 : C
+  },
+}")).
+Eval vm_compute in ("<<<M966>>>" ++ check (runes_of_ascii "packet A {
+    u32 crc @calculatedFrom(""x\
+y""),
+    @calculatedFrom(""x\
+y"") u8 y,
+}")).
+Eval vm_compute in ("<<<M972>>>" ++ check (runes_of_ascii "packet A {
+    u32 crc @calculatedFrom(""\
+""),
+    @calculatedFrom(""\
+"") u8 y,
+}")).
+Eval vm_compute in ("<<<M827>>>" ++ check (runes_of_ascii "packet A {
+  match k as n {
+    [1, 22, 007, 4, 5, 66] : B
+    2 : C
+  },
+}")).
+Eval vm_compute in ("<<<M1740>>>" ++ check (runes_of_ascii "packet A {
+    B b `x
+    `,
+    B `x
+    `,
+    repeat B bs `x
+    `,
+}")).
+Eval vm_compute in ("<<<M796>>>" ++ check (runes_of_ascii "packet A {
+  match k as n {
+    [1, 22, ""c c""] : B
+    2 : C
+  },
+}")).
+Eval vm_compute in ("<<<M1890>>>" ++ check (runes_of_ascii "
+packet
+body {i32 f32a
+	`{ , }`
+,
+    }options
+// c
+  { 
+}
 ")).
+Eval vm_compute in ("<<<M1287>>>" ++ check (runes_of_ascii "root packet P {
+    repeat string ss,
+    repeat u16 ns,
+}
+")).
+Eval vm_compute in ("<<<M1078>>>" ++ check (runes_of_ascii "// a
+MetaData M {} // b
+// c
+MetaData N {} // d
+// e")).
+Eval vm_compute in ("<<<M1079>>>" ++ check (runes_of_ascii "packet A { u8 x, } // a
+// b
+packet B {} // c
+// d")).
+Eval vm_compute in ("<<<M1580>>>" ++ check (runes_of_ascii "packet
+	A
+{  @tag(// a
+      1)
+u8 
+x
+, }
+")).
+Eval vm_compute in ("<<<M1679>>>" ++ check (runes_of_ascii "root packet A {
+    u8 x `
+        x`,
+}")).
+Eval vm_compute in ("<<<M54>>>" ++ check (runes_of_ascii "options
+{ T= '0' ;A= u8 ;
+    } 	 ")).
+Eval vm_compute in ("<<<M1728>>>" ++ check (runes_of_ascii "  MetaData 
+
+    // c
+  u
+{	}
+")).
+Eval vm_compute in ("<<<M270>>>" ++ check (runes_of_ascii "  root packet msg_type
+{
+}
+")).
+Eval vm_compute in ("<<<M1860>>>" ++ check (runes_of_ascii "packet
+
+f32a
+{
+
+    }")).
+Eval vm_compute in ("<<<M1107>>>" ++ check (runes_of_ascii "MetaData tag // c
+{ }")).
+Eval vm_compute in ("<<<M1869>>>" ++ check (runes_of_ascii "// top
+packet x {
+}")).
+Eval vm_compute in ("<<<M1039>>>" ++ check (runes_of_ascii "packet A {
+}// c 	")).
+Eval vm_compute in ("<<<M1034>>>" ++ check (runes_of_ascii "packet A {
+}// c" ++ [12]%N)).
+Eval vm_compute in ("<<<M1852>>>" ++ check (runes_of_ascii "packet int {
+}")).
+Eval vm_compute in ("<<<M975>>>" ++ check (runes_of_ascii "// c ")).
+Eval vm_compute in ("<<<M730>>>" ++ check (runes_of_ascii "//")).
